@@ -1,6 +1,6 @@
 (* Evaluation of stream-engine cases (streaming_body / BodyWriter / chunker). *)
 From Coq Require Import String.
-From HS Require Import Lib.Base Lib.Bytes Lib.Dec Model.Negot Model.Chunker Run.Val.
+From HS Require Import Lib.Base Lib.Bytes Lib.Dec Model.Negot Model.Builder Model.Chunker Run.Val.
 
 (* s_sg: what the implementation's own should_gzip answered for s_ae (absent in old corpus cases) *)
 Record stinput := { s_cap : N; s_level : N; s_meth : bytes; s_ae : option bytes; s_parts : bool; s_ops : list cop;
@@ -17,12 +17,23 @@ Definition dec_cop (v : val) : option cop :=
   | VL [VN 6] => Some ODropReader
   | _ => None
   end.
+(* The builder calls of a case: an optional list of earlier setter calls ([0; n] = with_chunk_size(n),
+   [1; l] = with_gzip_level(l)), always followed by with_chunk_size(cap) and with_gzip_level(level).
+   The chunk size and level in force are what the model's setters (Model/Builder.v) leave behind. *)
+Definition dec_call (v : val) : option (N * N) := match v with VL [VN k; VN x] => Some (k, x) | _ => None end.
+Definition apply_call (b : builder) (c : N * N) : builder :=
+  if fst c =? 0 then with_chunk_size b (snd c) else with_gzip_level b (snd c).
+Definition effective (pre : list (N * N)) (cap level : N) : builder :=
+  fold_left apply_call (pre ++ [(0, cap); (1, level)])
+    {| b_chunk_size := 4096; b_gzip_level := 6; b_should_gzip := false; b_body_needed := true |}.
 Definition dec_stinput (v : val) : option stinput :=
   match v with
   | VL (VN cap :: VN level :: VB m :: ae :: VN p :: ops :: rest) =>
+      let pre := match rest with [_; VL l] => match vlist dec_call (VL l) with Some c => c | None => [] end | _ => [] end in
+      let b := effective pre cap level in
       match vopt vbytes ae, vlist dec_cop ops with
-      | Some ae, Some ops => Some {| s_cap := cap; s_level := level; s_meth := m; s_ae := ae; s_parts := negb (p =? 0); s_ops := ops;
-                                    s_sg := match rest with [VN 0] => Some false | [VN 1] => Some true | _ => None end |}
+      | Some ae, Some ops => Some {| s_cap := b_chunk_size b; s_level := b_gzip_level b; s_meth := m; s_ae := ae; s_parts := negb (p =? 0); s_ops := ops;
+                                    s_sg := match rest with VN 0 :: _ => Some false | VN 1 :: _ => Some true | _ => None end |}
       | _, _ => None
       end
   | _ => None
